@@ -224,6 +224,7 @@ def run_unit(unit, repo='/repo', tier='quick', rlimit=30, seed=None, canaries=Tr
         res.wall_s = time.time() - t0
         return res
     res.gen = g
+    res.notes = list(getattr(g, 'dropped_loop_sections', []))
     path = os.path.join(WORK, unit + '.rs')
     with open(path, 'w') as f:
         f.write(text)
